@@ -92,9 +92,11 @@ func (r *RNN) Apply(inputs []tensor.Tensor) ([]tensor.Tensor, error) {
 		return nil, err
 	}
 
-	Ht := inputs[5]
-	if Ht == nil {
-		Ht = ops.ZeroTensor(1, batchSize, r.hiddenSize)
+	// The initial state is reshaped below, hence we work on a copy: the tensor
+	// given as input may be a model weight or belong to the caller.
+	Ht := ops.ZeroTensor(1, batchSize, r.hiddenSize)
+	if inputs[5] != nil {
+		Ht = inputs[5].Clone().(tensor.Tensor)
 	}
 
 	// Reshape the hidden tensor without the bidirectional dimension, as
